@@ -23,7 +23,7 @@ class C06(Prop):
                    "frequency table of the returned samples are checked — the many-samples limit is not a theorem (marginal_sampled_limit_full)",
                    "int/int float divisions in convert_jds_to_jdd are mapped back to the unique rational with denominator <= n_samples"]
     model_scope = "modelled: joint_degree_{manual,empirical,marginal,function}.py, convert_jds_to_jdd, normalise_jdd, factory/load dispatch"
-    budgets = {"quick": 300, "thorough": 4000}
+    budgets = {"quick": 300, "thorough": 20000}
     search_budget = {"quick": 800, "thorough": 6000}
 
     def gen(self, rng, i, tier):
